@@ -113,7 +113,7 @@ impl ItemId {
 UNIT = {
     "name": "trace_impls",
     "env": [os.path.join(ENV, "trace_impls_env.rs")],
-    "declared_trusted": {r"external_body": 40},
+    "declared_trusted": {r"external_body": 45},
     "items": [
         {"kind": "enum", "file": TV, "name": "EdgeKind", "prefix": "#[derive(Copy, Clone, PartialEq, Eq, Structural)]"},
         {"kind": "enum", "file": FN, "name": "Abi", "prefix": "#[derive(Copy, Clone, PartialEq, Eq, Structural)]"},
